@@ -111,6 +111,18 @@ class SockModel:
     accept._pyvc_native = True
 
 
+def _sock_recorder(name):
+    def f(ip, self, *args, **kw):
+        ip.ctx.event('sock.' + name, id(self), args)
+        return None
+    f._pyvc_native = True
+    return f
+
+
+for _nm in ('setsockopt', 'setblocking', 'bind', 'listen', 'connect'):
+    setattr(SockModel, _nm, _sock_recorder(_nm))
+
+
 def released(sock):
     """the connection is released <=> socket and all file objects made from it are closed (ASSUMED OS semantics)"""
     return sock.attrs['closed'] is True and all(f.attrs['closed'] is True for f in sock.attrs.get('files', []))
@@ -502,3 +514,87 @@ class AddressRoundTrip(Contract):
 
     def ensures(self, h, cfg, a, r):
         return {'parse(format(host, port)) == (host, port)': len(r) == 2 and And(eq(V(r[0]), V(h.host)), eq(V(r[1]), V(h.portno)))}
+
+
+# ====================================================================== construction of servers and clients
+_MAKE = Harness('''
+    def do(what, PortServer, connect, host, portno):
+        if what == 'server':
+            return PortServer(host, portno)
+        if what == 'server-backlog':
+            return PortServer(host, portno, backlog=5)
+        return connect(host, portno)
+''')
+
+
+@contract
+class SocketConstruction(Contract):
+    """PortServer(host, port[, backlog]) and connect(host, port): a TCP stream socket is created, the server binds to exactly the
+    address given and listens (address reuse on), the client connects to exactly the address given; the port is open, named
+    after the address, a server starts without client ports, a client reads/writes through unbuffered binary files on ITS socket"""
+    key = 'C18.construction'
+    target = S + 'PortServer.__init__'
+    properties = ('C18',)
+    configs = ({'what': 'server'}, {'what': 'server-backlog'}, {'what': 'client'})
+    raises = {}
+    symbolic_only = True
+
+    def callee(self, h, cfg):
+        return _MAKE.get(h)
+
+    def setup(self, h, cfg, ip):
+        import socket
+        import threading
+        h.socks = []
+
+        def make(ipx, *args, **kw):
+            o = Obj(SockModel, {'closed': False, 'family': args})
+            h.socks.append(o)
+            return o
+        ip.models.table[socket.socket] = make
+        ip.models.table[threading.RLock] = lambda ipx, *a, **k: Obj(LockModel, {})
+
+    def inputs(self, h, cfg):
+        import mido.sockets as MS
+        h.host = h.str('host')
+        h.portno = h.int('portno')
+        h.assume(And(V(h.portno) > 0, V(h.portno) < 65536))
+        return [cfg['what'], MS.PortServer, MS.connect, h.host, h.portno], {}
+
+    def ensures(self, h, cfg, a, r):
+        import socket
+        import mido.sockets as MS
+        ra = attrs_of(r)
+        log = h.ctx.log
+        name_ok = eq(V(ra['name']), z3.Concat(V(h.host), z3.StringVal(':'), z3.IntToStr(V(h.portno))))
+        out = {'one-TCP-stream-socket': len(h.socks) == 1 and h.socks[0].attrs['family'] == (socket.AF_INET, socket.SOCK_STREAM) and ra.get('_socket') is h.socks[0],
+               'open': ra.get('closed') is False}
+        if cfg['what'] == 'client':
+            out['named-after-the-address'] = name_ok          # (a server port is simply called 'multi': not part of the property)
+        if len(h.socks) != 1:
+            return out
+
+        def calls(nm):
+            return [e[2] for e in log if e[0] == 'sock.' + nm and e[1] == id(h.socks[0])]
+
+        def addr_is(args):
+            if not (len(args) == 1 and isinstance(args[0], tuple) and len(args[0]) == 2):
+                return False
+            return And(eq(V(args[0][0]), V(h.host)), eq(V(args[0][1]), V(h.portno)))
+        if cfg['what'] == 'client':
+            out['class'] = cls_of(r) is MS.SocketPort
+            out['connects-once-to-exactly-the-address-given'] = And(len(calls('connect')) == 1 and not calls('bind') and not calls('listen'),
+                                                                    addr_is(calls('connect')[0]) if calls('connect') else False)
+            files = h.socks[0].attrs.get('files', [])
+            out['unbuffered-binary-reader-and-writer-on-its-socket'] = len(files) == 2 and ra.get('_rfile') is files[0] and ra.get('_wfile') is files[1] \
+                and (files[0].attrs['mode'], files[0].attrs['buffering'], files[1].attrs['mode'], files[1].attrs['buffering']) == ('rb', 0, 'wb', 0)
+            out['queue-is-the-parser-queue'] = ra.get('_messages') is attrs_of(ra['_parser'])['messages']
+        else:
+            out['class'] = cls_of(r) is MS.PortServer
+            order = [e[0] for e in log if e[0] in ('sock.bind', 'sock.listen') and e[1] == id(h.socks[0])]
+            out['binds-to-exactly-the-address-given-then-listens'] = And(order == ['sock.bind', 'sock.listen'] and not calls('connect'),
+                                                                         addr_is(calls('bind')[0]) if calls('bind') else False)
+            out['backlog'] = calls('listen')[0] == ((5,) if cfg['what'] == 'server-backlog' else (1,)) if calls('listen') else False
+            out['address-reuse-switched-on'] = (socket.SOL_SOCKET, socket.SO_REUSEADDR, True) in calls('setsockopt')
+            out['starts-without-client-ports'] = isinstance(ra.get('ports'), list) and len(ra['ports']) == 0
+        return out
